@@ -348,10 +348,33 @@ class Rat(object):
         return a.n.is_zero()
 
     def is_const(a):
-        return a.n.is_const() and a.d.is_const()
+        if a.n.is_const() and a.d.is_const():
+            return True
+        return a._ratio() is not None
 
     def constant(a):
-        return a.n.constant() / a.d.constant()
+        if a.n.is_const() and a.d.is_const():
+            return a.n.constant() / a.d.constant()
+        q = a._ratio()
+        if q is None:
+            raise ValueError('not a constant: %r' % (a,))
+        return q
+
+    def _ratio(a):
+        """q if the numerator is the constant multiple q of the (non-
+        constant) denominator, else None."""
+        if not a.n.t:
+            return Fr(0)
+        if len(a.n.t) != len(a.d.t):
+            return None
+        m0 = next(iter(a.d.t))
+        if m0 not in a.n.t:
+            return None
+        q = a.n.t[m0] / a.d.t[m0]
+        for m, c in a.d.t.items():
+            if a.n.t.get(m) != q * c:
+                return None
+        return q
 
     def vars(a):
         return a.n.vars() | a.d.vars()
